@@ -1,5 +1,6 @@
 import TmVerif.Proofs.LexRunNext
 import TmVerif.Proofs.LexRunSkip
+import TmVerif.Proofs.LexRunRefine
 /-!
 C12 — Tokenization always progresses, tiles the input and tracks lines (property theorems only).
 
@@ -111,6 +112,21 @@ theorem C12_gaps_are_space_matches (sp : Spec) (hw : TablesWF sp) (l : Lexer) (h
   simp only [Option.some.injEq, Prod.mk.injEq] at h
   rw [h.1, h.2] at h2
   exact h2.gaps
+
+
+/-- **Gaps, in terms of the rules.** With the hypotheses of the refinement theorem (C11) the text
+between the previous position and the returned token is a chain of non-empty `Tables.Scan` matches
+whose action is a space rule (`SpaceChain`), starting right at the previous position (after the BOM
+for the first call, `C12_init_inv`). -/
+theorem C12_gaps_are_scan_space_matches (sp : Spec) (hw : TablesWF sp)
+    (hc : classMapOkUpTo sp (charBound sp.opts.scanBytes) = true) (he : eoiFinal sp.t = true)
+    (hk : HashOk sp) (l : Lexer) (hp : PInv sp.opts sp.v l) (hv : ValidState sp l) (tok : Int) (l' : Lexer)
+    (h : next sp l = some (tok, l')) :
+    SpaceChain sp l.source l.state l.offset l'.tokenOffset := by
+  obtain ⟨lm, g1, g2, _⟩ := C12_gaps_are_space_matches sp hw l hp hv tok l' h
+  have := (restarts_chain sp (wfacts_of sp hw) (classOk_of sp hc) he hk l lm g1 hp hv).1
+  rw [g2] at this
+  exact this
 
 /-- **Lines.** `Line()` of the returned token is `1 +` the number of newlines before its first byte. -/
 theorem C12_line_spec (sp : Spec) (hw : TablesWF sp) (l : Lexer) (hp : PInv sp.opts sp.v l)
